@@ -128,8 +128,11 @@ def C02(ctx):
 
 def C03(ctx):
     m = model(ctx.repo)
-    from .rules import wps
+    from .rules import wps, bounds
     wps.rule_wps_epilogue(ctx, m)
+    with ctx.scoped(lambda r, t: r in ('R-PRUNE',)):
+        wps.rule_wps_writers(ctx, m, affinity=False, tier=ctx.tier)
+    bounds.rule_euclidean(ctx, m)
     for F in _kernels(ctx, m):
         _py_distance_rules(ctx, m, F, ['prune', 'dom'])
     for kir in (True, False):
@@ -157,6 +160,7 @@ def C04(ctx):
     from .rules import wps
     wps.rule_wps_writers(ctx, m, affinity=False, tier=ctx.tier)
     wps.rule_pyx_direct_matrix(ctx, m)
+    wps.rule_direct_identity(ctx, m)
     wps.rule_wps_epilogue(ctx, m)
     wps.rule_wps_exits(ctx, m)
     wps.rule_wps_readers(ctx, m, affinity=False)
@@ -240,8 +244,8 @@ def C09(ctx):
     with ctx.scoped(has('only_ub')):
         for F in ks:
             _py_distance_rules(ctx, m, F, ['dom'])
-    with ctx.scoped(has('only_ub', 'ub_euclidean', 'lb_keogh')):
-        fwd.rule_delegation(ctx, m, ['dtaidistance.dtw', 'dtaidistance.dtw_ndim'])
+    with ctx.scoped(has('only_ub', 'ub_euclidean', 'lb_keogh', 'ed:', 'ed.py', 'distance_fast')):
+        fwd.rule_delegation(ctx, m, ['dtaidistance.dtw', 'dtaidistance.dtw_ndim', 'dtaidistance.ed'])
     cshape.rule_variant_callees(ctx, m)
     with ctx.scoped(has('lb_keogh', 'ub_euclidean', 'euclidean_distance')):
         sig.rule_pyx_to_c(ctx, m)
